@@ -140,6 +140,9 @@ fn scen(spec: RunSpec) -> ScenFut {
                 c.fail_after_pm = 12;
                 c.body_break_pm = 6;
                 c.fault_budget = nf;
+                c.outage_pm = 8;
+                c.outage_budget = 1;
+                c.outage_len = vec![2, 4, 9];
                 c.crash_pm = 8;
                 c.crash_budget = nc;
                 c.crashable = vec![0];
@@ -162,7 +165,8 @@ fn scen(spec: RunSpec) -> ScenFut {
             }
             let faults_done = sim::with(|st| {
                 let c = &st.cfg;
-                let random_left = c.enabled && ((c.fault_budget > 0 && c.fail_before_pm + c.fail_after_pm > 0) || (c.crash_budget > 0 && c.crash_pm > 0));
+                let outage_left = (c.outage_budget > 0 && c.outage_pm > 0) || st.outage_left.values().any(|v| *v > 0);
+                let random_left = c.enabled && ((c.fault_budget > 0 && c.fail_before_pm + c.fail_after_pm > 0) || (c.crash_budget > 0 && c.crash_pm > 0) || outage_left);
                 let forced_left = c.forced.map(|(n, _)| st.store_gate_ord <= n).unwrap_or(false);
                 !(random_left || forced_left)
             });
